@@ -56,17 +56,19 @@ Proof.
     destruct (gs_exec s) as [|k0 ks] eqn:Ex.
     { exists []. rewrite app_nil_r. split; [reflexivity | apply Rem_nil]. }
     match goal with |- context [pass cs (k0 :: ks) ?q] =>
-      pose proof (pass_rem cs (k0 :: ks) q) as HP; remember (pass cs (k0 :: ks) q) as pp eqn:Epp end.
+      pose proof (pass_rem cs (k0 :: ks) q) as HP end.
+    match goal with |- context [pass cs (k0 :: ks) ?q] =>
+      remember (pass cs (k0 :: ks) q) as pp eqn:Epp end.
     destruct HP as [new [P1 P2]].
     cbn [ps_result ps_g] in P1, P2.
     destruct (ps_clean pp) eqn:Ec; [destruct (ps_promote pp) eqn:Ep|].
     + exists new. cbn [gs_result gs_g]. split; assumption.
-    + match goal with |- context [fold_left ?f (ps_promote pp) ?a] => destruct (fold_left f (ps_promote pp) a) as [ex3 pan] end.
+    + match goal with |- context [fold_left ?f ?l (?e, ps_panic pp)] => destruct (fold_left f l (e, ps_panic pp)) as [ex3 pan] end.
       match goal with |- context [gather_loop f cs ?q] => destruct (IH q) as [new2 [G1 G2]] end.
       cbn [gs_result gs_g] in G1, G2. exists (new ++ new2). split.
       * rewrite G1, P1, app_assoc. reflexivity.
       * eapply Rem_app; eassumption.
-    + match goal with |- context [fold_left ?f (ps_promote pp) ?a] => destruct (fold_left f (ps_promote pp) a) as [ex3 pan] end.
+    + match goal with |- context [fold_left ?f ?l (?e, ps_panic pp)] => destruct (fold_left f l (e, ps_panic pp)) as [ex3 pan] end.
       match goal with |- context [gather_loop f cs ?q] => destruct (IH q) as [new2 [G1 G2]] end.
       cbn [gs_result gs_g] in G1, G2. exists (new ++ new2). split.
       * rewrite G1, P1, app_assoc. reflexivity.
@@ -139,14 +141,11 @@ Proof.
   intros p id tentative HC Hin. unfold commit_stored.
   destruct (remove_single (p_g (with_txmap p (adel N.eqb id (p_txmap p)))) id) as [g o] eqn:R.
   pose proof (remove_single_spec _ _ _ _ R) as S. cbn [with_txmap p_g] in S. destruct o as [n|].
-  - destruct S as [S1 S2]. cbn [fst]. rewrite uor_single_core.
+  - destruct S as [S1 S2]. cbn [fst]. rewrite uor_single_core, core_of_with_spent, core_of_with_eo.
     pose proof (get_node_some _ _ _ S1) as [Hn Hid].
-    assert (E : core_rm_cm (core_of (with_spent
-                   (with_eo (with_g (with_txmap p (adel N.eqb id (p_txmap p))) g)
-                      (new_extracted_transaction (p_eo (with_txmap p (adel N.eqb id (p_txmap p)))) (n_tx n)))
-                   (spend_inputs (if tentative then record_tentative_spend _ id (t_ins (n_tx n)) else _) id (t_ins (n_tx n)))))
-                 (n_tx n) = rm_core (core_of p) (n_tx n)).
-    { unfold core_of, core_rm_cm, rm_core. cbn [with_spent with_eo with_g with_txmap p_g p_cm p_txmap p_gas p_bytes].
+    assert (E : core_rm_cm (core_of (with_g (with_txmap p (adel N.eqb id (p_txmap p))) g)) (n_tx n)
+                = rm_core (core_of p) (n_tx n)).
+    { unfold core_of, core_rm_cm, rm_core. cbn [with_g with_txmap p_g p_cm p_txmap p_gas p_bytes].
       rewrite S2. unfold n_id in Hid. rewrite Hid, adel_idem. reflexivity. }
     rewrite E. apply rm_core_inv; [exact HC|]. unfold core_of. cbn [fst]. unfold txs. apply in_map. exact Hn.
   - destruct S as [_ S]. exfalso. apply has_node_In in Hin. unfold has_node in Hin. rewrite S in Hin. discriminate.
@@ -239,7 +238,7 @@ Proof.
       destruct (update_on_removal_fields r' (with_g q g))
         as [J1 [_ [_ [_ [_ [_ [_ [_ [J9 [J10 [J11 J12]]]]]]]]]]].
       cbv zeta in *. rewrite I1, I9, I10, I11, I12, J1, J9, J10, J11, J12.
-      cbn [with_g with_txmap p_g p_cm p_txmap p_gas p_bytes]. repeat f_equal.
+      cbn [with_g with_txmap p_g p_cm p_txmap p_gas p_bytes]. do 3 f_equal.
       (* adel id commutes with the fold of adel, and is absorbed since id is among them *)
       clear - Hin. revert Hin. generalize (p_txmap q) as m. induction r' as [|n r IH]; intros m Hin; [destruct Hin|].
       cbn [map fold_left]. cbn [map In] in Hin.
